@@ -153,6 +153,7 @@ func ParseSliceHeader(nalu []byte, spsMap map[uint32]*SPS, ppsMap map[uint32]*PP
 	if !ok {
 		return nil, fmt.Errorf("sps ID %d unknown", spsID)
 	}
+	sh.SeqParamID = spsID
 	if sps.SeparateColourPlaneFlag {
 		sh.ColorPlaneID = uint32(r.Read(2))
 	}
